@@ -198,3 +198,59 @@ def branches(ifnode):
     polarity the author chose"""
     t, pol = negate_test(ifnode.test)
     return (t, ifnode.body, ifnode.orelse) if pol else (t, ifnode.orelse, ifnode.body)
+
+
+def _always_exits(stmts):
+    """the statement list never falls through (ends in return / raise / continue / break on every
+    path)"""
+    if not stmts:
+        return False
+    last = stmts[-1]
+    if isinstance(last, (ast.Return, ast.Raise, ast.Continue, ast.Break)):
+        return True
+    if isinstance(last, ast.If):
+        return _always_exits(last.body) and _always_exits(last.orelse)
+    return False
+
+
+def _split(test, pol, out):
+    if isinstance(test, ast.UnaryOp) and isinstance(test.op, ast.Not):
+        return _split(test.operand, not pol, out)
+    if isinstance(test, ast.BoolOp):
+        if (isinstance(test.op, ast.And) and pol) or (isinstance(test.op, ast.Or) and not pol):
+            for v in test.values:
+                _split(v, pol, out)
+            return
+    t, p2 = negate_test(test)
+    out.append((ast.unparse(t), pol if p2 else not pol, t))
+
+
+def guards_of(func, node):
+    """Conditions that hold whenever `node` executes, read off the block structure:
+    enclosing `if`s (with polarity) and preceding guard clauses (`if T: return/raise/continue`
+    earlier in an enclosing block gives `not T`). `A and B` holding, `A or B` failing and `not`
+    are split; `!=`, `is not`, `not in` are normalised to their positive form.
+    Returns a list of (text, polarity, expr). Apply to the normal form (inline_temps) so that
+    named conditions are expanded."""
+    out = []
+    cur = node
+    while cur is not func and cur is not None:
+        p = getattr(cur, '_parent', None)
+        if p is None:
+            break
+        for fld in ('body', 'orelse', 'finalbody'):
+            blk = getattr(p, fld, None)
+            if isinstance(blk, list) and any(cur is s for s in blk):
+                idx = [i for i, s in enumerate(blk) if s is cur][0]
+                for s in blk[:idx]:
+                    if isinstance(s, ast.If):
+                        if _always_exits(s.body) and not _always_exits(s.orelse):
+                            _split(s.test, False, out)
+                        elif s.orelse and _always_exits(s.orelse) and not _always_exits(s.body):
+                            _split(s.test, True, out)
+                if isinstance(p, ast.If):
+                    _split(p.test, fld == 'body', out)
+                elif isinstance(p, ast.While) and fld == 'body':
+                    _split(p.test, True, out)
+        cur = p
+    return out
